@@ -1,7 +1,6 @@
 package main
 
 import (
-	"os"
 	"fmt"
 	"go/token"
 	"go/types"
@@ -383,11 +382,6 @@ func (fv *FnVC) loadRaw(h *Heap, loc string) string {
 		return fv.loadExpanded(h, loc)
 	}
 	for _, hv := range h.havocs {
-		if fv.quiet > 0 && hv.calleeFrame && os.Getenv("TGVC_SKIPFRAMES") != "" {
-			// loads made while evaluating assumed clauses do not need the callee-frame
-			// instances at their locations (omitting hypotheses is sound)
-			continue
-		}
 		fv.instHavoc(hv, loc)
 	}
 	return "(select " + h.term + " " + loc + ")"
